@@ -50,6 +50,9 @@ def corrupt(plugin, r, start, end, viol, dtype_name):
         r = r.copy()
         r["endtime"][0] = end + 1
         return r
+    if viol == "sibling_label":      # a multi-output plugin hands over, under the key of one output, a chunk labelled as its sibling
+        return strax.Chunk(start=start, end=end, data=r, data_type="side", data_kind=plugin.data_kind_for("side"),
+                           dtype=plugin.dtype_for("side"), run_id="0")
     if viol == "wrong_label":
         return strax.Chunk(start=start, end=end, data=r, data_type="something_else", data_kind=plugin.data_kind_for(dtype_name),
                            dtype=plugin.dtype_for(dtype_name), run_id="0")
